@@ -4,8 +4,18 @@ import BronVerif.Model.Wire
 import BronVerif.Model.Curves
 import BronVerif.Model.CurveEnc
 /-! Driver handlers for C12 (wire formats): every verdict is computed with the CBOR model
-(`Model/Cbor.lean`): generic strict decoding, canonical re-encoding, container-level
-classification of mutants. -/
+(`Model/Cbor.lean`: generic strict decoding, canonical re-encoding, container-level classification
+of mutants) and, for the modelled types, with the typed wire models of `Model/Wire.lean`
+(`decodeWith decT`, `encodeWith encT`, `validT` — the very definitions `Props/C12.lean` proves
+`decodeT_valid` / `decodeT_encodeT` about), instantiated with `Fp n` and the runtime curve points:
+
+* `canon <type> <bytes>`: the library's own encoding must be canonical, round-trip byte for byte
+  and — modelled types — be the canonical encoding of a value satisfying `validT` (a disagreement
+  on an honestly constructed value is a model/implementation mismatch: `DIFF`);
+* `mut <type> <kind> <bytes> => accept:<re-encoding>`: the accepted object, as re-encoded by Go, must
+  satisfy `validT` (`BAD key=accepted-object-invalid` otherwise: the decoder returned an object that
+  violates the rules its constructor enforces, e.g. a shard whose private share does not match
+  `M_rows · V` in some component). -/
 namespace BronVerif.Drive.C12
 open BronVerif BronVerif.Drive BronVerif.Cbor
 
